@@ -414,8 +414,13 @@ def _cases_append(units, fname, via_parent_first=True):
         yield ('append to %d element(s)' % n, run)
 
 
+def _max_len():
+    import os
+    return 8 if os.environ.get('CJSA_TIER') == 'thorough' else 6
+
+
 def _cases_detach_ptr(units, fname, stray_case=True):
-    for n in range(1, 6):
+    for n in range(1, _max_len()):
         for pos in range(n):
             def run(n=n, pos=pos):
                 heap = Heap()
@@ -494,7 +499,7 @@ def _cases_insert(units, fname, unsigned=False, beyond_end='append'):
 
 
 def _cases_replace_ptr(units, fname):
-    for n in range(1, 6):
+    for n in range(1, _max_len()):
         for pos in range(n):
             def run(n=n, pos=pos):
                 heap = Heap()
@@ -642,11 +647,17 @@ def shp2(units, R, fname='sort_object'):
     fn = u.functions[fname]
     bad = []
     n_cases = 0
-    alphabet = [b'a', b'b', b'c', b'd', b'e']
+    import os
+    thorough = os.environ.get('CJSA_TIER') == 'thorough'
+    alphabet = [b'a', b'b', b'c', b'd', b'e', b'f', b'g']
     arrangements = []
-    for n in range(0, 5):
+    for n in range(0, 6 if thorough else 5):
         arrangements += list(itertools.product(alphabet[:max(n, 1)], repeat=n))
-    arrangements += list(itertools.permutations(alphabet, 5))
+    if thorough:
+        # deeper: every arrangement with repetitions up to five members, every order of six and of seven distinct keys
+        arrangements += list(itertools.permutations(alphabet[:6], 6)) + list(itertools.permutations(alphabet[:7], 7))
+    else:
+        arrangements += list(itertools.permutations(alphabet[:5], 5))
     for keys in arrangements:
         for cs in (1, 0):
             n_cases += 1
@@ -669,7 +680,8 @@ def shp2(units, R, fname='sort_object'):
                     raise ShapeViolation('a member was deleted')
             except ShapeViolation as v:
                 bad.append('%s, case_sensitive=%d: %s' % (what, cs, v))
-    R.ob('SHP2', fn, None, '%s leaves the same member nodes, ordered by key, with consistent links (objects of up to 5 members)' % fname,
+    R.ob('SHP2', fn, None, '%s leaves the same member nodes, ordered by key, with consistent links (objects of up to %d members)' % (
+        fname, 7 if thorough else 5),
          not bad, '%d arrangements of keys x 2 flag values' % (n_cases // 2) if not bad else '%s (%d of %d cases wrong)' % (bad[0], len(bad), n_cases),
          key='sort:' + fname)
     R.floor('SHP2', 'key arrangements sorted', n_cases, 100)
